@@ -16,6 +16,8 @@ use std::slice;
 use subtle::{Choice, ConditionallySelectable, ConstantTimeGreater};
 
 mod dp;
+#[cfg(feature = "verif-hooks")]
+pub use dp::verif as verif_dp;
 #[cfg(feature = "test-util")]
 pub mod higher_degree;
 mod l1boundsum;
